@@ -23,7 +23,7 @@ def client_op(kind, variant, who):
             return {"op": "WriteSubDoc", "coll": COLL, "key": KEY, "path": path, "val": "s2", "casc": "snap"}
         if kind == "incr":
             return {"op": "SubdocInsert", "coll": COLL, "key": KEY, "path": path, "val": "s1", "casc": "zero"}
-    if variant == "xattr":
+    if variant in ("xattr", "xtomb"):
         xn = {"p1": "_s", "p2": "u", "p3": "_t"}[who]
         sets = {xn: {"t": "x2", "mc": True, "mh": False}}
         if kind == "update":
@@ -46,6 +46,10 @@ def to_case(name, scen, prog, sched, variant, mode="mem"):
     setup = [{"op": "Incr", "coll": COLL, "key": KEY, "amt": 1, "def": 0}]
     if variant == "subdoc":
         setup = [{"op": "Set", "coll": COLL, "key": KEY, "body": "J1"}]
+    if variant == "xtomb":
+        # the xattr operations race on a tombstone that carries a system xattr
+        setup += [{"op": "SetXattrs", "coll": COLL, "key": KEY, "sets": {"_s": {"t": "x1", "mc": False, "mh": False}}},
+                  {"op": "Delete", "coll": COLL, "key": KEY}]
     procs = [{"name": p, "ops": [client_op(k, variant, p)]} for p, k in sorted(prog.items())]
     out = []
     if scen.get("Dump"):
@@ -165,11 +169,11 @@ def run(tier, seed, vh, only_paths=None, mode=None):
             for i, sc in enumerate(scheds):
                 variants = ["kv"]
                 if scen in ("race", "race3"):
-                    variants = ["kv", "subdoc", "xattr"]
+                    variants = ["kv", "subdoc", "xattr", "xtomb"]
                 for v in variants:
                     if v == "subdoc" and not set(sc["prog"].values()) <= {"update", "casw", "incr"}:
                         continue
-                    if v == "xattr" and not set(sc["prog"].values()) <= {"update", "casw", "set"}:
+                    if v in ("xattr", "xtomb") and not set(sc["prog"].values()) <= {"update", "casw", "set"}:
                         continue
                     cases.append(to_case("%s-%d-%s" % (scen, i, v), SCENARIOS[scen], sc["prog"], sc["sched"], v))
         res["gen_states"] = gen_states
@@ -180,34 +184,51 @@ def run(tier, seed, vh, only_paths=None, mode=None):
         res["mc"] = {"states": 0, "transitions": 0}
         mode = mode or "mem"
     res["paths"] = len(cases)
-    cfile = os.path.join(run, "cases.json")
-    json.dump(cases, open(cfile, "w"))
-    trace = os.path.join(run, "trace.ndjson")
-    rc, out = sh([vh, "conc", "-in", cfile, "-out", trace, "-mode", mode, "-scratch", os.path.join(run, "buckets")], timeout=7200)
-    m = re.search(r"CONC cases=(\d+) lines=(\d+) errors=(\d+) skipped=(\d+)", out)
-    if not m:
-        raise Inconclusive("concurrent driver failed:\n" + out[-2000:])
-    derr = [l for l in out.splitlines() if l.startswith("DRIVER-ERROR")]
-    res["traces"] = int(m.group(1)) - int(m.group(3)) - int(m.group(4))
-    res["skipped_overlap"] = int(m.group(4))
-    if res["traces"] < 0.8 * int(m.group(1)):
-        raise Inconclusive("only %d of %s cases could be replayed: %s" % (res["traces"], m.group(1), derr[:3]))
-    res["lines"] = int(m.group(2))
+    json.dump(cases, open(os.path.join(run, "cases.json"), "w"))
+    # the gate scheduler runs one process of one case at a time, so the cases are spread over several driver
+    # processes (each with its own buckets, trace file and validation)
+    import concurrent.futures
+    nproc = 1 if len(cases) < 40 else int(os.environ.get("VERIF_CONC_PROCS", "6"))
+    slices = [cases[i::nproc] for i in range(nproc)]
+
+    def one(i):
+        sl = slices[i]
+        cfile = os.path.join(run, "cases%d.json" % i)
+        json.dump(sl, open(cfile, "w"))
+        trace = os.path.join(run, "trace%d.ndjson" % i)
+        bdir = os.path.join(run, "buckets", "p%d" % i)
+        os.makedirs(bdir, exist_ok=True)
+        rc, out = sh([vh, "conc", "-in", cfile, "-out", trace, "-mode", mode, "-scratch", bdir], timeout=7200)
+        m = re.search(r"CONC cases=(\d+) lines=(\d+) errors=(\d+) skipped=(\d+)", out)
+        if not m:
+            raise Inconclusive("concurrent driver failed:\n" + out[-2000:])
+        derr = [l for l in out.splitlines() if l.startswith("DRIVER-ERROR")]
+        fails, distinct = fam_seq.validate(run, trace, par=3)
+        if distinct - 1 != int(m.group(2)):
+            raise Inconclusive("trace validation consumed %d of %s lines" % (distinct - 1, m.group(2)))
+        fl = []
+        for t in fails:
+            props = t[1]["$set"] if isinstance(t[1], dict) else []
+            tr = t[2]
+            c = sl[(tr - 1) % len(sl)]
+            sig = fam_seq.signature(t) if t[5] != "feed" else {"op": "feed", "kind": t[6][0], "backfill": t[6][4], "dump": t[6][5]}
+            sig["scenario"] = c["name"].split("-")[0]
+            sig.pop("mode", None)
+            fl.append({"props": props, "trace": tr, "step": t[3], "mode": t[4], "op": t[5], "what": t[6], "sig": sig,
+                       "expected": t[7], "observed": t[8], "ops": c})
+        return [int(g) for g in m.groups()], derr, fl
+    tot, derr, out_f = [0, 0, 0, 0], [], []
+    with concurrent.futures.ThreadPoolExecutor(max_workers=nproc) as ex:
+        for cnt, de, fl in ex.map(one, range(nproc)):
+            tot = [a + b for a, b in zip(tot, cnt)]
+            derr += de
+            out_f += fl
+    res["traces"] = tot[0] - tot[2] - tot[3]
+    res["skipped_overlap"] = tot[3]
+    if res["traces"] < 0.8 * tot[0]:
+        raise Inconclusive("only %d of %s cases could be replayed: %s" % (res["traces"], tot[0], derr[:3]))
+    res["lines"] = tot[1]
     res["driver_errors"] = derr
-    fails, distinct = fam_seq.validate(run, trace)
-    if distinct - 1 != res["lines"]:
-        raise Inconclusive("trace validation consumed %d of %d lines" % (distinct - 1, res["lines"]))
-    ncases = len(cases)
-    out_f = []
-    for t in fails:
-        props = t[1]["$set"] if isinstance(t[1], dict) else []
-        tr = t[2]
-        idx = (tr - 1) % ncases
-        sig = fam_seq.signature(t) if t[5] != "feed" else {"op": "feed", "kind": t[6][0], "backfill": t[6][4], "dump": t[6][5]}
-        sig["scenario"] = cases[idx]["name"].split("-")[0]
-        sig.pop("mode", None)
-        out_f.append({"props": props, "trace": tr, "step": t[3], "mode": t[4], "op": t[5], "what": t[6], "sig": sig,
-                      "expected": t[7], "observed": t[8], "ops": cases[idx]})
     # randomised stress with real parallelism (no gates), validated by SeqTrace!Stress
     if only_paths is None:
         strace = os.path.join(run, "stress.ndjson")
